@@ -165,6 +165,7 @@ func (Engine) Run(t *tape.Tape, o eng.Opts) *eng.Result {
 		res.Violations = append(res.Violations, eng.Violation{Property: "C05", Rule: rule, Detail: detail, Shape: shape})
 	}
 	if sr.Deadlock {
+		res.Poisoned = true
 		viol("liveness.deadlock", "every unfinished task is blocked outside the scheduler and none is parked at a yield: the code under test hangs on its own", nil)
 		return res
 	}
